@@ -1,1 +1,195 @@
-import BigtreeModel.Basic
+import BigtreeModel.CopyStore
+import BigtreeProofs.Lemmas.CopyStore
+/-!
+# C07 — readers never alter or alias their input (Model A, `CopyStore`)
+
+`copy`, `clone_tree`, `prune_tree`, `get_subtree` work on fresh cells (ids `≥ s.n`); the cells of
+the input (`< s.n`) are untouched, no `parent`/`children` link crosses the boundary `s.n`
+(`Sep`), and hence no later mutation history on one side is visible on the other side.
+
+The non-vacuity examples use `CopyStore.s4` (root "r" = 0 with children "a" = 1, "b" = 2;
+"c" = 3 below "a"), defined in `Lemmas/CopyStore.lean`.
+-/
+namespace C07
+open CopyStore
+
+def AllHi (k : Nat) (ops : List Op) : Prop := ∀ op ∈ ops, ∀ a ∈ op.args, k ≤ a
+def AllLo (k : Nat) (ops : List Op) : Prop := ∀ op ∈ ops, ∀ a ∈ op.args, a < k
+def OneSided (k : Nat) (ops : List Op) : Prop :=
+  ∀ op ∈ ops, (∀ a ∈ op.args, a < k) ∨ (∀ a ∈ op.args, k ≤ a)
+
+/-! ## the copy is fresh -/
+
+theorem copy_fresh (s : Store) (v : Nat) (hc : Closed s) :
+    (∀ i, i < s.n → (deepCopy s v).1.cell? i = s.cell? i)
+    ∧ s.n ≤ (deepCopy s v).2
+    ∧ Sep (deepCopy s v).1 s.n
+    ∧ Closed (deepCopy s v).1
+    ∧ ∀ f, toTree (deepCopy s v).1 f (deepCopy s v).2 = shiftIds s.n (toTree s f v) :=
+  ⟨fun i hi => deepCopy_cell_lo s v i hi,
+    by rw [deepCopy_snd]; omega,
+    sep_deepCopy s v s.n (closed_sep s hc) (Nat.le_refl _),
+    closed_deepCopy s v hc,
+    fun f => toTree_deepCopy s v f v⟩
+
+/-- non-vacuity: `s4` is closed, the copy of "a" (id 1) is the fresh id 5, the copy has 8 cells,
+    and the tree read at the copy is the tree at "a" with shifted ids -/
+example : Closed s4 ∧ s4.n = 4 ∧ (deepCopy s4 1).2 = 5 ∧ (deepCopy s4 1).1.n = 8
+    ∧ toTree (deepCopy s4 1).1 8 5
+        = .node 5 ['a'] [(['x'], .int 1)] [.node 7 ['c'] [] []]
+    ∧ toTree s4 8 1 = .node 1 ['a'] [(['x'], .int 1)] [.node 3 ['c'] [] []] :=
+  ⟨s4_closed, rfl, rfl, rfl, rfl, rfl⟩
+example : (∀ i, i < 4 → (deepCopy s4 1).1.cell? i = s4.cell? i) ∧ Sep (deepCopy s4 1).1 4 :=
+  have h := copy_fresh s4 1 s4_closed
+  ⟨h.1, h.2.2.1⟩
+
+/-! ## a mutation stays on its side -/
+
+theorem sep_step (s : Store) (k : Nat) (op : Op) (hs : Sep s k) :
+    ((∀ a ∈ op.args, k ≤ a) → Sep (step s op) k ∧ ∀ i, i < k → (step s op).cell? i = s.cell? i)
+    ∧ ((∀ a ∈ op.args, a < k) → Sep (step s op) k ∧ ∀ i, k ≤ i → (step s op).cell? i = s.cell? i) :=
+  ⟨fun ha => (inv_step op (inv_hi_of_sep hs) ha).hi,
+    fun ha => (inv_step op (inv_lo_of_sep hs) ha).lo⟩
+
+/-- non-vacuity: on the copy of `s4` (separated at 4) re-parenting the copied "c" (7) under the
+    copied "b" (6) is a high operation that really changes the store; `del root.children` on the
+    original (0) is a low operation that really changes the store -/
+example : Sep (deepCopy s4 1).1 4
+    ∧ (∀ a ∈ (Op.setParent 7 (some 6)).args, 4 ≤ a)
+    ∧ step (deepCopy s4 1).1 (.setParent 7 (some 6)) ≠ (deepCopy s4 1).1
+    ∧ (∀ a ∈ (Op.delChildren 0).args, a < 4)
+    ∧ step (deepCopy s4 1).1 (.delChildren 0) ≠ (deepCopy s4 1).1 :=
+  ⟨(copy_fresh s4 1 s4_closed).2.2.1, by decide, by decide, by decide, by decide⟩
+
+theorem sep_run (s : Store) (k : Nat) (ops : List Op) (hs : Sep s k) (h1 : OneSided k ops) :
+    Sep (run s ops) k := by
+  induction ops generalizing s with
+  | nil => exact hs
+  | cons op ops ih =>
+    unfold run
+    rw [List.foldl_cons]
+    refine ih (step s op) ?_ (fun o ho => h1 o (List.mem_cons_of_mem _ ho))
+    rcases h1 op List.mem_cons_self with h | h
+    · exact ((sep_step s k op hs).2 h).1
+    · exact ((sep_step s k op hs).1 h).1
+
+/-- non-vacuity: an interleaved history on the copy of `s4`, each operation on one side -/
+example : OneSided 4 [.setParent 3 (some 2), .setParent 7 (some 6), .delChildren 0, .setName 5 ['z']] := by
+  unfold OneSided; decide
+example : Sep (run (deepCopy s4 1).1
+    [.setParent 3 (some 2), .setParent 7 (some 6), .delChildren 0, .setName 5 ['z']]) 4 :=
+  sep_run _ 4 _ (copy_fresh s4 1 s4_closed).2.2.1 (by unfold OneSided; decide)
+/-- the hypothesis `OneSided` is not idle: a cross-boundary re-parenting breaks `Sep` -/
+example : ¬ OneSided 4 [.setParent 7 (some 2)] := by unfold OneSided; decide
+
+/-! ## no aliasing between the original and the copy -/
+
+theorem no_alias_after_copy (s : Store) (v : Nat) (hc : Closed s) (ops : List Op) :
+    (AllHi s.n ops → ∀ i, i < s.n → (run (deepCopy s v).1 ops).cell? i = s.cell? i)
+    ∧ (AllLo s.n ops → ∀ i, s.n ≤ i → (run (deepCopy s v).1 ops).cell? i = (deepCopy s v).1.cell? i) := by
+  have hs : Sep (deepCopy s v).1 s.n := (copy_fresh s v hc).2.2.1
+  refine ⟨fun h i hi => ?_, fun h i hi => ?_⟩
+  · rw [← deepCopy_cell_lo s v i hi]
+    exact (inv_run ops _ (inv_hi_of_sep hs) h).hi.2 i hi
+  · exact (inv_run ops _ (inv_lo_of_sep hs) h).lo.2 i hi
+
+/-- non-vacuity: a high history that rewires, prunes, renames and re-attributes the copy of `s4`
+    (and really changes it), and a low history that does the same to the original -/
+example : AllHi s4.n [.setParent 7 (some 6), .delChildren 4, .setName 5 ['z'], .setAttr 6 ['k'] (.bool true)]
+    ∧ (run (deepCopy s4 1).1
+        [.setParent 7 (some 6), .delChildren 4, .setName 5 ['z'], .setAttr 6 ['k'] (.bool true)]).cell? 6
+      = some ⟨none, [7], ['b'], [(['k'], .bool true)]⟩
+    ∧ (deepCopy s4 1).1.cell? 6 = some ⟨some 4, [], ['b'], []⟩ :=
+  ⟨by unfold AllHi; decide, rfl, rfl⟩
+example : AllLo s4.n [.setParent 3 (some 2), .delChildren 0, .setName 1 ['z']]
+    ∧ (run (deepCopy s4 1).1 [.setParent 3 (some 2), .delChildren 0, .setName 1 ['z']]).cell? 1
+      = some ⟨none, [], ['z'], [(['x'], .int 1)]⟩
+    ∧ (deepCopy s4 1).1.cell? 1 = some ⟨some 0, [3], ['a'], [(['x'], .int 1)]⟩ :=
+  ⟨by unfold AllLo; decide, rfl, rfl⟩
+
+/-! ## the mutating "readers" -/
+
+theorem clone_frame (s : Store) (v : Nat) (hc : Closed s) :
+    (∀ i, i < s.n → (cloneA s v).1.cell? i = s.cell? i)
+    ∧ s.n ≤ (cloneA s v).2 ∧ Sep (cloneA s v).1 s.n :=
+  cloneA_frame v hc
+
+/-- non-vacuity: cloning from "c" (3) clones the whole tree from the root: four fresh cells
+    4 … 7, the clone of the root is 4 and has two children -/
+example : (cloneA s4 3).2 = 4 ∧ (cloneA s4 3).1.n = 8
+    ∧ (cloneA s4 3).1.cell? 4 = some ⟨none, [5, 7], ['r'], []⟩ :=
+  ⟨rfl, rfl, rfl⟩
+
+theorem prune_frame (treeSep : Str) (s : Store) (v : Nat) (paths : List Str) (exact : Bool) (sepArg : Str)
+    (md : Nat) (hc : Closed s) (r : Store × Nat) (h : pruneA treeSep s v paths exact sepArg md = .ok r) :
+    (∀ i, i < s.n → r.1.cell? i = s.cell? i) ∧ s.n ≤ r.2 ∧ Sep r.1 s.n :=
+  pruneA_frame_gen s.n (closed_sep s hc) (Nat.le_refl _) h
+
+/-- non-vacuity: `prune_tree(root, "r/a", exact=True, max_depth=2)` succeeds on `s4`, returns the
+    fresh node 4, and has really detached the copies of "b" (6) and "c" (7) -/
+example : ∃ r, pruneA ['/'] s4 0 [['r', '/', 'a']] true ['/'] 2 = .ok r
+    ∧ r.2 = 4 ∧ r.1.cell? 4 = some ⟨none, [5], ['r'], []⟩
+    ∧ r.1.parentOf 6 = none ∧ r.1.parentOf 7 = none ∧ (deepCopy s4 0).1.parentOf 7 = some 5 :=
+  ⟨_, rfl, rfl, rfl, rfl, rfl, rfl⟩
+/-- the error branches are reachable as well (so `h` is a genuine hypothesis) -/
+example : pruneA ['/'] s4 0 [] false ['/'] 0 = .error .valueError
+    ∧ pruneA ['/'] s4 0 [['q']] false ['/'] 0 = .error .notFound :=
+  ⟨rfl, rfl⟩
+
+theorem get_subtree_frame (treeSep : Str) (s : Store) (v : Nat) (q : Str) (md : Nat) (hc : Closed s)
+    (r : Store × Nat) (h : getSubtreeA treeSep s v q md = .ok r) :
+    (∀ i, i < s.n → r.1.cell? i = s.cell? i) ∧ s.n ≤ r.2 ∧ Sep r.1 s.n :=
+  getSubtreeA_frame hc h
+
+/-- non-vacuity: `get_subtree(root, "a", max_depth=1)` succeeds on `s4`; it copies twice (16
+    cells), returns the fresh node 13 (the copy of the copy of "a") with its children removed;
+    without a depth limit it returns the first copy 5, detached from its parent -/
+example : ∃ r, getSubtreeA ['/'] s4 0 ['a'] 1 = .ok r
+    ∧ r.2 = 13 ∧ r.1.n = 16 ∧ r.1.cell? 13 = some ⟨none, [], ['a'], [(['x'], .int 1)]⟩ :=
+  ⟨_, rfl, rfl, rfl, rfl⟩
+example : ∃ r, getSubtreeA ['/'] s4 0 ['a'] 0 = .ok r
+    ∧ r.2 = 5 ∧ r.1.cell? 5 = some ⟨none, [7], ['a'], [(['x'], .int 1)]⟩ :=
+  ⟨_, rfl, rfl, rfl⟩
+example : getSubtreeA ['/'] s4 0 ['q'] 0 = .error .valueError := rfl
+
+/-! ## Tier 2: interleaved histories -/
+
+/-- In a history each of whose operations has all its arguments on one side of `k`, started in a
+    store separated at `k`: at every position the store is still separated, and the operation at
+    that position changes cells of its own side only. -/
+theorem mixed_history_frame (s : Store) (k : Nat) (ops : List Op) (hs : Sep s k) (h1 : OneSided k ops)
+    (pre : List Op) (op : Op) (post : List Op) (he : ops = pre ++ op :: post) :
+    Sep (run s pre) k
+    ∧ run s (pre ++ [op]) = step (run s pre) op
+    ∧ ((∀ a ∈ op.args, k ≤ a) → ∀ i, i < k → (run s (pre ++ [op])).cell? i = (run s pre).cell? i)
+    ∧ ((∀ a ∈ op.args, a < k) → ∀ i, k ≤ i → (run s (pre ++ [op])).cell? i = (run s pre).cell? i) := by
+  subst he
+  have hpre : Sep (run s pre) k :=
+    sep_run s k pre hs (fun o ho => h1 o (List.mem_append_left _ ho))
+  have hr : run s (pre ++ [op]) = step (run s pre) op := by
+    simp [run, List.foldl_append]
+  refine ⟨hpre, hr, fun ha => ?_, fun ha => ?_⟩
+  · rw [hr]; exact ((sep_step _ k op hpre).1 ha).2
+  · rw [hr]; exact ((sep_step _ k op hpre).2 ha).2
+
+/-- consequence for the copy: whatever one-sided history is run on `deepCopy s v`, a high
+    operation never changes an original cell and a low operation never changes a copy cell -/
+theorem mixed_history_after_copy (s : Store) (v : Nat) (hc : Closed s) (ops : List Op)
+    (h1 : OneSided s.n ops) (pre : List Op) (op : Op) (post : List Op) (he : ops = pre ++ op :: post) :
+    ((∀ a ∈ op.args, s.n ≤ a) → ∀ i, i < s.n →
+        (run (deepCopy s v).1 (pre ++ [op])).cell? i = (run (deepCopy s v).1 pre).cell? i)
+    ∧ ((∀ a ∈ op.args, a < s.n) → ∀ i, s.n ≤ i →
+        (run (deepCopy s v).1 (pre ++ [op])).cell? i = (run (deepCopy s v).1 pre).cell? i) :=
+  have h := mixed_history_frame (deepCopy s v).1 s.n ops (copy_fresh s v hc).2.2.1 h1 pre op post he
+  ⟨h.2.2.1, h.2.2.2⟩
+
+/-- non-vacuity: the interleaved history of `sep_run`'s example, split at its high operation -/
+example :
+    let ops : List Op := [.setParent 3 (some 2), .setParent 7 (some 6), .delChildren 0, .setName 5 ['z']]
+    OneSided s4.n ops ∧ ops = [.setParent 3 (some 2)] ++ .setParent 7 (some 6) :: [.delChildren 0, .setName 5 ['z']]
+    ∧ (∀ a ∈ (Op.setParent 7 (some 6)).args, s4.n ≤ a)
+    ∧ run (deepCopy s4 1).1 [.setParent 3 (some 2), .setParent 7 (some 6)]
+        ≠ run (deepCopy s4 1).1 [.setParent 3 (some 2)] :=
+  ⟨by unfold OneSided; decide, rfl, by decide, by decide⟩
+
+end C07
